@@ -761,7 +761,7 @@ def run(args, res):
                                                "reran=%s, isolated expect=%s reran=%s" % (
                                                    tm.shape_str(shape), cfg_name(cfg), tm.edits_str(edits), exp, reran,
                                                    iso["expect"], iso["reran"]))
-                if len(edits) and len(res.samples) < 5 and res.counters.get("histories", 0) % 211 == 5:
+                if len(edits) and len(res.samples) < 5 and res.counters.get("histories", 0) % 97 == 3:
                     res.sample({"tree": tm.shape_str(shape), "edits": tm.edits_str(edits),
                                 "per configuration (expect, re-executed)": {cfg_name(c): [x, r] for c, x, r, _, _ in results}})
             if tm.size(shape) <= pl["chain"] and res.exhaustive:
